@@ -145,3 +145,28 @@ def program_minimizer(check, get_case, with_prog, max_evals=120):
         return with_prog(value, p2), best['msg']
 
     return minimizer
+
+
+def check_source_program(src, vals, ws, *, S=S0, unchecked=False, vm_budget=1_500_000, ref_budget=150_000):
+    """Differential check for a program given as source text: the reference side goes through the
+    independent parser and typechecker (ref/parse.py, ref/types.py).  -> Verdict (ref, run filled in)."""
+    from ref.parse import parse_program
+    from ref.types import check_program
+    prog = parse_program(src)
+    check_program(prog)
+    ref = reference_for(prog, vals, ws, checked=not unchecked, budget=ref_budget, stack_words=S0)
+    if ref.kind == 'budget':
+        raise Discard('reference budget')
+    if ref.kind.startswith('undefined'):
+        raise Discard('undefined: ' + ref.kind.split(':', 1)[1][:40])
+    try:
+        lines = compile_lines(src, ws, S, unchecked)
+    except H.CompilerError as e:
+        return Verdict('mismatch', 'program rejected: %s: %s' % (type(e).__name__, e), ref, None, src, sig='rejected')
+    run = run_lines(lines, argv_strings(vals), budget=vm_budget)
+    if run.outcome == svm.BUDGET:
+        raise Discard('vm budget')
+    m = compare(ref, run)
+    if m is None:
+        return Verdict('agree', '', ref, run, src)
+    return Verdict('mismatch', m, ref, run, src, sig='mismatch:%s->%s' % (ref.kind, ','.join(run.flags[-2:]) or run.outcome))
